@@ -356,6 +356,8 @@ class _Normaliser(ast.NodeTransformer):
         self.in_func += 1
         self.generic_visit(n)
         self.in_func -= 1
+        if len(n.body) > 1 and isinstance(n.body[0], ast.Expr) and isinstance(n.body[0].value, ast.Constant) and isinstance(n.body[0].value.value, str):
+            n.body = n.body[1:]  # the docstring
         n.body = self._strip(n.body)
         return n
 
@@ -428,9 +430,25 @@ class _Normaliser(ast.NodeTransformer):
         return n
 
     # ---- statements without an effect on any result: print(...) ; bare string / constant expressions other than docstrings stay
-    @staticmethod
-    def _is_print(s):
-        return isinstance(s, ast.Expr) and isinstance(s.value, ast.Call) and isinstance(s.value.func, ast.Name) and s.value.func.id == "print"
+    LOG_ROOTS = ("logging", "logger", "log", "LOGGER", "_logger", "_log")
+    LOG_METHODS = ("debug", "info", "warning", "warn", "error", "exception", "critical", "log")
+
+    @classmethod
+    def _is_print(cls, s):
+        """print(...)  |  a statement-level logging call: logging.debug(..), logger.info(..), logging.getLogger(..).debug(..)"""
+        if not (isinstance(s, ast.Expr) and isinstance(s.value, ast.Call)):
+            return False
+        f = s.value.func
+        if isinstance(f, ast.Name):
+            return f.id == "print"
+        if isinstance(f, ast.Attribute) and f.attr in cls.LOG_METHODS:
+            base = f.value
+            if isinstance(base, ast.Call):  # logging.getLogger(...).debug(...)
+                base = base.func
+            while isinstance(base, ast.Attribute):
+                base = base.value
+            return isinstance(base, ast.Name) and base.id in cls.LOG_ROOTS
+        return False
 
     def _strip(self, body, allow_empty=False):
         out = [s for s in body if not self._is_print(s)]
